@@ -96,9 +96,16 @@ fn cyclic_store(next: &[u8]) -> Store {
         let to = format!("r{}", next.get(i).copied().unwrap_or((i as u8 + 1) % n as u8) as usize % n);
         let mut d = RDict::new();
         d.insert("id".into(), RVal::Ref(format!("r{i}"), None));
-        for tag in ["a", "b", "c", "d", "siteRef", "equipRef", "spaceRef", "site", "equip", "point"] {
+        for (k, tag) in ["a", "b", "c", "d", "siteRef", "equipRef", "spaceRef", "site", "equip", "point"].into_iter().enumerate() {
             if tag.len() == 1 || tag.ends_with("Ref") {
-                d.insert(tag.into(), RVal::Ref(to.clone(), None));
+                // a ref-valued tag holds one ref, a list with that ref, or a list of two refs
+                let r = RVal::Ref(to.clone(), None);
+                let v = match (i + k + next.get(i).copied().unwrap_or(0) as usize) % 4 {
+                    0 | 1 => r,
+                    2 => RVal::List(vec![r]),
+                    _ => RVal::List(vec![RVal::Ref(format!("r{i}"), None), r]),
+                };
+                d.insert(tag.into(), v);
             } else {
                 d.insert(tag.into(), RVal::Marker);
             }
@@ -236,6 +243,13 @@ fn ftext(depth: u32) -> BoxedStrategy<FText> {
 // paren-depth ladder in child processes
 
 pub fn ladder_text(shape: &str, depth: usize, closed: bool) -> String {
+    // the same nesting after a first term whose literal holds brackets / quotes of its own: whatever counts
+    // parentheses must agree with the lexer about where literals begin and end
+    for (name, prefix) in [("after-str", "dis == \"((\\\"(\" and "), ("after-uri-quote", "u == `\"` and "), ("after-uri-parens", "u == `)))(` and "), ("after-ref-dis", "r == @x \"(\\\"(\" and ")] {
+        if shape == name {
+            return format!("{prefix}{}", ladder_text("parens", depth, closed));
+        }
+    }
     match shape {
         "parens" => {
             let mut s = "(".repeat(depth);
@@ -272,7 +286,7 @@ pub fn ladder_text(shape: &str, depth: usize, closed: bool) -> String {
     }
 }
 
-pub const SHAPES: [&str; 4] = ["parens", "parens-spaced", "and-parens", "flat-chain"];
+pub const SHAPES: [&str; 8] = ["parens", "parens-spaced", "and-parens", "flat-chain", "after-str", "after-uri-quote", "after-uri-parens", "after-ref-dis"];
 
 pub fn probe_ladder(args: &[String]) -> i32 {
     let shape = args.first().cloned().unwrap_or_default();
@@ -369,7 +383,7 @@ fn run_ladder(ctx: &mut Ctx) {
 }
 
 pub fn run(ctx: &mut Ctx) {
-    ctx.rule("inputs: arbitrary bytes and UTF-8 strings, operator soup from the token dictionary, printed valid filters, every prefix of them, 1-3 mutations, ref-chasing filters (*==, relationship queries, paths over ref tags), and a paren-depth ladder 1..131072 (four shapes, closed and unclosed) in child processes on the main and a 2 MiB thread stack, also through haystack_filter_parse; every filter that parses is printed and evaluated on six records whose refs form generated cycles, against the empty and the real Project Haystack namespace, through a resolver with a call budget; oracle: parse returns Ok/Err, evaluation returns - no panic, fuel exhaustion, abort, confirmed hang or budget exhaustion; non-trivial: >= 2 tokens; distinct by text");
+    ctx.rule("inputs: arbitrary bytes and UTF-8 strings, operator soup from the token dictionary, printed valid filters, every prefix of them, 1-3 mutations, ref-chasing filters (*==, relationship queries, paths over ref tags), and a paren-depth ladder 1..131072 (eight shapes - bare, spaced, and-chains, flat chains, and the nesting placed after a Str / Uri / Ref-display literal that holds brackets and quotes of its own - closed and unclosed) in child processes on the main and a 2 MiB thread stack, also through haystack_filter_parse; every filter that parses is printed and evaluated on six records whose refs (single refs and lists of refs) form generated cycles, against the empty and the real Project Haystack namespace, through a resolver with a call budget; oracle: parse returns Ok/Err, evaluation returns - no panic, fuel exhaustion, abort, confirmed hang or budget exhaustion; non-trivial: >= 2 tokens; distinct by text");
     ctx.assume("an evaluation that does not terminate must keep calling the resolver (both ref-following loops do); the budget of 20000 calls per evaluation is far above what six records allow");
     let _ = real_ns();
     run_ladder(ctx);
